@@ -67,7 +67,11 @@ def extract_metadata(
         raise MetadataError(basename, None, ValueError(".egg files are not supported"))
     elif os.path.exists(os.path.join(filename, "pyproject.toml")):
         LOG.debug("Extracting from a pyproject.toml")
-        result, setup_requires = fetch_from_pyproject(filename)
+        try:
+            result, setup_requires = fetch_from_pyproject(filename)
+        except Exception as ex:  # pylint: disable=broad-except
+            # A failing PEP 517 backend is a metadata failure of this project.
+            raise MetadataError(os.path.basename(filename), None, ex)
 
     if result is None:
         LOG.debug("Extracting directly from a source directory")
